@@ -9,56 +9,67 @@
 EXTENDS ServerStream, KnownFindingsServer, TLC, Json, IOUtils
 
 Trace == ndJsonDeserialize(IOEnv.TRACE_FILE)
-VARIABLES l, frames, handler, delivered, outAll, dead
-vars == <<l, frames, handler, delivered, outAll, dead>>
+\* streams[c]: the request frames of connection c; delivered/outAll/dead are per connection.  Single-connection
+\* traces (direct ReceiveRead, one client of server.Server) are the case of one stream.
+VARIABLES l, streams, handler, delivered, outAll, dead
+vars == <<l, streams, handler, delivered, outAll, dead>>
 
-AllLegal == \A i \in DOMAIN frames : FrameClass(frames[i]) = "legal"
+AllLegal(frames) == \A i \in DOMAIN frames : FrameClass(frames[i]) = "legal"
 
 \* C15 for streams of legal frames answered by the device
-J_seq(e, d2, o2) ==
+J_seq(frames, e, d1, o1, d2, o2) ==
     LET k == Completed(frames, d2)
         want == Replies(frames, k)
     IN IF o2 = want THEN "ok"
        ELSE IF Len(o2) > Len(want) \/ o2 # SubSeq(want, 1, Len(o2)) THEN
-            (IF Len(e.out) > 0 /\ Len(outAll) = Len(Replies(frames, Completed(frames, delivered))) /\ k = Completed(frames, delivered)
-             THEN "reply-sent-before-the-request-is-complete"
+            (IF Len(e.out) > 0 /\ Len(o1) = Len(Replies(frames, Completed(frames, d1))) /\ k = Completed(frames, d1)
+             THEN (IF Len(streams) > 1 /\ Len(e.bytes) = 0 THEN "bytes-sent-to-a-connection-that-asked-nothing"
+                   ELSE "reply-sent-before-the-request-is-complete")
              ELSE "reply-stream-differs-from-in-order-replies")
        ELSE "complete-request-not-answered"
 
 \* C16 for a single complete frame
-J_one(e, d2) ==
-    IF d2 < Len(frames[1]) THEN (IF Len(e.out) > 0 THEN "reply-sent-before-the-request-is-complete" ELSE "ok")
-    ELSE ReplyVerdict(frames[1], handler, e.out)
+J_one(f, e, d2) ==
+    IF d2 < Len(f) THEN (IF Len(e.out) > 0 THEN "reply-sent-before-the-request-is-complete" ELSE "ok")
+    ELSE ReplyVerdict(f, IF handler = "errShared" THEN "errTyped" ELSE handler, e.out)
 
 J_segment(e) ==
-    LET d2 == delivered + Len(e.bytes)
-        o2 == outAll \o e.out
+    LET c == e.conn
+        frames == streams[c]
+        d2 == delivered[c] + Len(e.bytes)
+        o2 == outAll[c] \o e.out
     IN IF e.panic /\ handler \notin {"panic", "nil"} THEN "panic"
        ELSE IF e.panic THEN "ok"                      \* a panicking handler: recorded, the connection is dropped
-       ELSE IF handler = "device" /\ AllLegal THEN J_seq(e, d2, o2)
-       ELSE IF Len(frames) = 1 THEN J_one(e, d2)
+       ELSE IF handler = "device" /\ AllLegal(frames) THEN J_seq(frames, e, delivered[c], outAll[c], d2, o2)
+       ELSE IF Len(frames) = 1 THEN J_one(frames[1], e, d2)
        ELSE "ok"
 
 Known(v, e) ==
-    IF v # "ok" /\ Dev_Len2_NotModbus(frames, delivered + Len(e.bytes), e.out) THEN "known:C15-F1" ELSE v
+    IF v # "ok" /\ Dev_Len2_NotModbus(streams[e.conn], delivered[e.conn] + Len(e.bytes), e.out) THEN "known:C15-F1" ELSE v
 
 Judge(e) ==
     CASE e.ev = "reset" -> "ok"
-      [] e.ev = "segment" -> IF dead THEN "ok" ELSE Known(J_segment(e), e)
+      [] e.ev = "segment" -> IF e.conn \notin DOMAIN streams THEN "unknown-connection" ELSE IF dead[e.conn] THEN "ok" ELSE Known(J_segment(e), e)
+      [] e.ev = "leave" -> "ok"
       [] e.ev = "other" -> IF e.ok THEN "ok" ELSE "other-connection-disturbed"
+      [] e.ev = "race" -> "data-race-in-library-code-between-connections"
       [] e.ev = "harness" -> "harness-" \o e.what
       [] OTHER -> "unknown-event"
 
-Init == l = 1 /\ frames = <<>> /\ handler = "device" /\ delivered = 0 /\ outAll = <<>> /\ dead = FALSE
+Init == l = 1 /\ streams = <<>> /\ handler = "device" /\ delivered = <<>> /\ outAll = <<>> /\ dead = <<>>
 Next ==
     /\ l <= Len(Trace)
     /\ LET e == Trace[l] v == Judge(e) IN
        /\ IF v = "ok" THEN TRUE ELSE PrintT(<<"VERDICT", l, v>>)
-       /\ CASE e.ev = "reset" -> frames' = e.frames /\ handler' = e.handler /\ delivered' = 0 /\ outAll' = <<>> /\ dead' = FALSE
-            [] e.ev = "segment" -> /\ delivered' = delivered + Len(e.bytes) /\ outAll' = outAll \o e.out
+       /\ CASE e.ev = "reset" -> /\ streams' = e.streams /\ handler' = e.handler
+                                 /\ delivered' = [c \in DOMAIN e.streams |-> 0] /\ outAll' = [c \in DOMAIN e.streams |-> <<>>]
+                                 /\ dead' = [c \in DOMAIN e.streams |-> FALSE]
+            [] e.ev = "segment" /\ e.conn \in DOMAIN streams ->
+                                   /\ delivered' = [delivered EXCEPT ![e.conn] = @ + Len(e.bytes)]
+                                   /\ outAll' = [outAll EXCEPT ![e.conn] = @ \o e.out]
                                    \* after the first rejection of a stream the rest of it is not judged again
-                                   /\ dead' = (dead \/ v # "ok") /\ UNCHANGED <<frames, handler>>
-            [] OTHER -> UNCHANGED <<frames, handler, delivered, outAll, dead>>
+                                   /\ dead' = [dead EXCEPT ![e.conn] = (@ \/ v # "ok")] /\ UNCHANGED <<streams, handler>>
+            [] OTHER -> UNCHANGED <<streams, handler, delivered, outAll, dead>>
     /\ l' = l + 1
 Spec == Init /\ [][Next]_vars
 AllConsumed == TLCGet("stats").diameter - 1 = Len(Trace)
